@@ -107,7 +107,7 @@ REGISTRY = {
     },
     "C01": {
         "level": "proof",
-        "modules": ["CoCoVerif.Props.C01", "CoCoVerif.Props.C01Text"],
+        "modules": ["CoCoVerif.Props.C01", "CoCoVerif.Props.C01Text", "CoCoVerif.Props.C01TextSym"],
         "theorems": _T["C01"],
         "rule": "cases = the statement matrix (every non-pseudo mnemonic x every operand form of the README grammar x 18 boundary values x every literal "
                 "spelling; 73,055 statements, sampled at 6% in the quick tier, complete in the thorough tier) + all TFR/EXG register pairs and PSH/PUL "
@@ -182,8 +182,11 @@ REGISTRY = {
     "C15": {
         "level": "proof",
         "family": "dsk",
-        "modules": ["CoCoVerif.Props.C15", "CoCoVerif.Props.C08"],
-        "theorems": [P + "C15_full", P + "C08_full"],
+        "modules": ["CoCoVerif.Props.C15", "CoCoVerif.Props.C08", "CoCoVerif.Props.C15Host"],
+        "theorems": [P + "C15_full", P + "C08_full", P + "write_disk_full", P + "write_disk_full_iff", P + "write_disk_full_point", P + "storeTo_disk_full",
+                     P + "storeTo_disk_full_host", P + "storeTo_disk_full_written", P + "storeTo_frame", P + "asmMain_disk_full", P + "utilMain_disk_full",
+                     P + "utilMain_disk_full_after_cas", P + "fs69_diag", P + "fs69_point", P + "witness_full_disk", P + "witness_asmMain", P + "witness_utilMain",
+                     P + "write_slots_free"],
         "rule": "cases = fill-to-exhaustion histories (74 tiny files: slot exhaustion; 40 multi-granule files: granule exhaustion; mixtures) under default "
                 "and permuted fill orders, one file at a time; after the history the reference fsck recounts free granules and slots; the first "
                 "failing add must be a clean diagnostic exactly when the file does not fit; plus the dsk.write histories",
@@ -341,7 +344,11 @@ MANIFEST_TEXT = {'C02': {'text': 'Lean: C02_full_v2 : C02_Statement_v2 (Props/C0
                  'OPERAND TEXT for every spelling family (decimal / $hex literals as immediates, direct, extended, <n, >n, >$hh, [indirect]; ,R ,R+ ,R++ ,-R '
                  ',--R, A,R B,R D,R for X Y U S with [..] variants; decimal offsets of every width and sign; n,PCR) plus rejection theorems. Intends speaks '
                  'about numeric operands; label operands: C01_label_offset (a label or label expression as constant offset of a pointer register and inside '
-                 "[..], since fix 831a353) and C03 (label,PCR, branches); symbols and expressions: C04's theorems plus the statement matrix.",
+                 '[..], since fix 831a353) and C03 (label,PCR, branches); (iv) C01_text_symbol (Props/C01TextSym): from the operand TEXT naming an EQU symbol, '
+                 'for any symbol table - #nm on 8- and 16-bit rows (signed range, out of range rejected), nm (direct below 256, extended above), <nm, >nm, '
+                 '[nm], nm,R and [nm,R] for X Y U S (shortest form that holds the value), nm,PCR and [nm,PCR] - each reduced to C01_full through the front '
+                 "end; equ_binds ties it to what `label EQU literal` stores; whole-program witness symProg_assembles (66 bytes). Expressions: C04's theorems "
+                 'plus the statement matrix.',
          'design_ref': 'DESIGN.md section 5 C01, section 6 A',
          'note': 'no known finding left for C01; trusted: Spec/MC6809*.lean, Lean kernel, correspondence (statement matrix complete in the thorough tier, '
                  'sampled in quick)',
@@ -411,9 +418,14 @@ MANIFEST_TEXT = {'C02': {'text': 'Lean: C02_full_v2 : C02_Statement_v2 (Props/C0
                       'correspondence + fsck oracle'},
  'C15': {'text': "Lean theorem C15_full: on every image reachable from a blank one, a file needing n <= free granules with a free slot is stored with free' = "
                  "free - n, slots' = slots - 1, previously used FAT entries untouched, n = streamLength/2304 + 1; otherwise addFile is a diagnostic; blank "
-                 'offers 68 and 72. Tie: fill-to-exhaustion histories against the implementation one add at a time, recounted by the reference fsck.',
+                 'offers 68 and 72. Tie: fill-to-exhaustion histories against the implementation one add at a time, recounted by the reference fsck. Host-file '
+                 'clause (Props/C15Host, Lemmas/DiskFull): write_disk_full_iff (a whole write is a diagnostic exactly when the files need more than 68 '
+                 'granules in total or are more than 72), storeTo_disk_full / storeTo_disk_full_written / storeTo_frame (a target that cannot hold the files '
+                 'is refused and the host file system is exactly what it was, for either append flag), asmMain_disk_full (the tool prints the error, exit 0, '
+                 'target untouched), utilMain_disk_full (exit 1, file system unchanged); witnesses without evaluating an image (69 one-byte files).',
          'design_ref': 'DESIGN.md section 5 C15',
-         'note': "the 'host file left as it was' clause is carried by the VirtualFile model (C10: a diagnostic in save writes nothing); trusted as for C08",
+         'note': "the host clause is a theorem on the VirtualFile model (Props/C15Host); side finding write_slots_free: on tool-written images the 'no slot "
+                 "free' refusal can never be the one that triggers; trusted as for C08",
          'technique': 'Lean 4 proof (corollary of the C08 invariant with counting) + differential fill-to-exhaustion histories + fsck recount oracle'},
  'C06': {'text': 'Lean theorems C06_roundtrip_partial (list(write fs) = norm fs for every file list, every data length and content) and C06_reader_partial '
                  '(the scanning reader returns exactly the files of ANY well-formed tape stream: arbitrary gap/leader lengths, gaps between data blocks, '
